@@ -88,6 +88,10 @@ def build_funcs(ck, imms, quick):
                   locs="i64:r, i64:p", dom=dom, shape="rm")
             g.add(key, "ii_i", f"  alloca p, 32\n  mov x, 2\n  {op} i64:(p, x, 8), a, b\n  mov r, i64:16(p)\n{post}  ret r",
                   locs="i64:r, i64:p, i64:x", dom=dom, shape="mr")
+            g.add(key, "ii_i", f"  alloca p, 32\n  mov i64:8(p), a\n  {op} r, i64:8(p), b\n{post}  ret r",
+                  locs="i64:r, i64:p", dom=dom, shape="m1")
+            g.add(key, "ii_i", f"  alloca p, 32\n  mov i64:8(p), a\n  mov x, i64:8(p)\n  {op} r, x, b\n{post}  ret r",
+                  locs="i64:r, i64:p, i64:x", dom=dom, shape="ld1")
             for im in imms:
                 if in_dom(dom, 0 if dom.startswith("sh") else 1, im) or dom == "any" or dom.startswith("div") and in_dom(dom, 1, im):
                     if dom != "any" and not in_dom(dom, 1, im):
@@ -101,6 +105,19 @@ def build_funcs(ck, imms, quick):
             if a in CMPS:
                 bn = brname(a, short)
                 g.add(f"br:{a}:{int(short)}", "ii_i", f"  {bn} @t, a, b\n  mov r, 0\n  ret r\n@t:\n  mov r, 1\n  ret r", shape="br")
+                tail = "  mov r, 0\n  ret r\n@t:\n  mov r, 1\n  ret r"
+                # operand forms the combiner rewrites (operand swap to fold a load), memory operands, and the
+                # branch-over-jump shape the simplifier reverses
+                g.add(f"br:{a}:{int(short)}", "ii_i", f"  alloca p, 32\n  mov i64:8(p), a\n  mov x, i64:8(p)\n  {bn} @t, x, b\n" + tail,
+                      locs="i64:r, i64:p, i64:x", shape="br-ld1")
+                g.add(f"br:{a}:{int(short)}", "ii_i", f"  alloca p, 32\n  mov i64:8(p), b\n  mov x, i64:8(p)\n  {bn} @t, a, x\n" + tail,
+                      locs="i64:r, i64:p, i64:x", shape="br-ld2")
+                g.add(f"br:{a}:{int(short)}", "ii_i", f"  alloca p, 32\n  mov i64:8(p), a\n  {bn} @t, i64:8(p), b\n" + tail,
+                      locs="i64:r, i64:p", shape="br-m1")
+                g.add(f"br:{a}:{int(short)}", "ii_i", f"  alloca p, 32\n  mov i64:8(p), b\n  {bn} @t, a, i64:8(p)\n" + tail,
+                      locs="i64:r, i64:p", shape="br-m2")
+                g.add(f"br:{a}:{int(short)}", "ii_i", f"  {bn} @t, a, b\n  jmp @f\n@t:\n  mov r, 1\n  ret r\n@f:\n  mov r, 0\n  ret r",
+                      shape="br-over-jmp")
                 for im in imms[:4]:
                     sim = im - (1 << 64) if im >> 63 else im
                     g.add(f"br:{a}:{int(short)}", "i_i", f"  {bn} @t, a, {sim}\n  mov r, 0\n  ret r\n@t:\n  mov r, 1\n  ret r",
